@@ -1,6 +1,7 @@
 package frugal
 
 import (
+	"github.com/apache/thrift/lib/go/thrift"
 	"time"
 )
 
@@ -66,9 +67,15 @@ func VerifC17_SharedContext() {
 	n := 2
 	for w := 0; w < n; w++ {
 		w := w
-		op := verifChoice(7)
+		op := verifChoice(9)
 		go func() {
 			switch op {
+			case 7: // a send serialises the context while somebody else uses it
+				p := NewFProtocolFactory(thrift.NewTBinaryProtocolFactoryDefault()).GetProtocol(thrift.NewTMemoryBuffer())
+				verifAssert(p.WriteRequestHeader(c) == nil, "request header serialises")
+			case 8:
+				p := NewFProtocolFactory(thrift.NewTBinaryProtocolFactoryDefault()).GetProtocol(thrift.NewTMemoryBuffer())
+				verifAssert(p.WriteResponseHeader(c) == nil, "response header serialises")
 			case 0:
 				c.AddRequestHeader("k", string(rune('a'+w)))
 			case 1:
